@@ -409,6 +409,12 @@ func structsEqual(x, y any) (err error) {
 			}
 		}
 
+		if !xvf.CanInterface() || !yvf.CanInterface() {
+			// unexported field: not comparable
+			// from here, skip it.
+			continue
+		}
+
 		err = valuesEqual(xvf.Interface(), yvf.Interface())
 	}
 
